@@ -224,6 +224,17 @@ def run_item(item):
     if hb is not None and "elterngeld_m" in T.columns:
         bonus = sum(col(c) for c in ("elterngeld_geschwisterbonus_m", "elterngeld_mehrlingsbonus_m") if c in T.columns)
         cap("elterngeld_m<=höchstbetrag+bonuses", col("elterngeld_m"), float(hb) + bonus + 0.01)
+        # the bonuses themselves, bounded from the parameters alone: the base amount is at most the replacement rate x the
+        # maximal income taken into account, the sibling bonus the surcharge on that (or its minimum)
+        eg = params["elterngeld"]
+        if all(k in eg for k in ("faktor", "max_zu_berücksichtigendes_einkommen", "geschwisterbonus_aufschlag", "geschwisterbonus_minimum")):
+            base_max = max(float(eg["faktor"]) * float(eg["max_zu_berücksichtigendes_einkommen"]), float(hb))
+            sib_max = max(float(eg["geschwisterbonus_aufschlag"]) * base_max, float(eg["geschwisterbonus_minimum"]))
+            cap("elterngeld_basisbetrag_m<=rate x maximal income", col("elterngeld_basisbetrag_m"), base_max + 0.01)
+            cap("elterngeld_geschwisterbonus_m<=surcharge x maximal base amount", col("elterngeld_geschwisterbonus_m"), sib_max + 0.01)
+            ml = col("elterngeld_mehrlingsbonus_m")
+            cap("elterngeld_m<=höchstbetrag+statutory sibling bonus+multiples bonus", col("elterngeld_m"),
+                float(hb) + sib_max + (ml if ml is not None else 0.0) + 0.01)
     # income tax <= top rate x taxable income; soli <= rate x (tax + abgelt)
     tarif = _get(params, "eink_st", "eink_st_tarif")
     if tarif is not None and "eink_st_y_sn" in T.columns and "_zu_verst_eink_mit_kinderfreib_y_sn" in T.columns:
